@@ -1746,3 +1746,6 @@ func TextOf(v Value) []byte { return textOf(nil, v) }
 
 // ColIndexPublic is the index of the named column (case-insensitive), -1 if absent.
 func (t *Table) ColIndexPublic(name string) int { return t.colIndex(name) }
+
+// PKValuesPublic returns the primary-key values of a row of t.
+func (t *Table) PKValuesPublic(r Row) []Value { return t.pkValues(r) }
